@@ -36,7 +36,7 @@ GROUPS = [
 
 def run_worker(seed, n, mode, hashseed):
     env = dict(os.environ, PYTHONHASHSEED=str(hashseed), SOURCE_DATE_EPOCH="0")
-    p = subprocess.run(["/venv/bin/python", "-W", "ignore", "/verif/harness/c08_worker.py", str(seed), str(n), mode],
+    p = subprocess.run(["/venv/bin/python", "-W", "ignore", os.path.join(os.path.dirname(os.path.dirname(os.path.abspath(__file__))), "c08_worker.py"), str(seed), str(n), mode],
                        env=env, stdout=subprocess.PIPE, stderr=subprocess.PIPE, text=True, timeout=3000)
     if p.returncode != 0:
         raise RuntimeError("worker (PYTHONHASHSEED=%s) failed: %s" % (hashseed, p.stderr[-2000:]))
